@@ -171,6 +171,7 @@ func checkC05(c *Ctx) {
 	r.Rule("C05/LOWER/arg", "in each Should*Domain predicate the domain parameter is used only as the argument of strings.ToLower")
 	r.Rule("C05/TABLE/predicates", "exhaustive truth table: accept = DefaultAccept∧¬in(RejectDomains) ∨ ¬DefaultAccept∧in(AcceptDomains); store = DefaultStore∧¬in(DiscardDomains) ∨ ¬DefaultStore∧in(StoreDomains); origin = no element of RejectOriginDomains matches (pattern=element, s=domain)")
 	r.Rule("C05/RCPT/guards", "append(recipients) is unreachable from ShouldAccept()==false of the same recipient; the policy call is bypassed only via extAction != Defer; the append is dominated by len(recipients) < MaxRecipients")
+	r.Rule("C05/STORE/mailboxes", "Deliver without an extension answer: the destination list is rebuilt from empty; recip.Mailbox is appended only under recip.ShouldStore() true, the decision is taken for every ranged recipient and a positive decision always reaches the append")
 	r.Rule("C05/MAIL/guards", "enterState(MAIL) is unreachable from Origin.ShouldAccept()==false; bypass only via extAction != Defer")
 	smtpT := p.Named("pkg/config", "SMTP")
 	process := p.Func("pkg/config", "Process")
@@ -350,6 +351,14 @@ func checkC05(c *Ctx) {
 	}
 	c.c05SliceContains()
 	c.c05Guards()
+	// D5: the store decision per recipient (same analysis as C01/FLOW/mailboxes)
+	deliver := p.Method("pkg/message", "StoreManager", "Deliver")
+	fMailboxes := p.Field("pkg/extension/event", "InboundMessage", "Mailboxes")
+	fRecipMb := p.Field("pkg/policy", "Recipient", "Mailbox")
+	shouldStore := p.Method("pkg/policy", "Recipient", "ShouldStore")
+	if deliver != nil && fMailboxes != nil && fRecipMb != nil && shouldStore != nil {
+		c.c01MailboxesAs("C05/STORE/mailboxes", deliver, fMailboxes, fRecipMb, shouldStore)
+	}
 }
 
 // lowersSlice: g stores strings.ToLower(elem) back into the elements of its slice parameter.
